@@ -26,8 +26,8 @@ LEVEL_TEXT = (
     "returned as a copy; (R4) every attribute name used to steer tree variation (hasattr / getattr strings, "
     "gengy_* reads) is defined somewhere in the package - a guard on a never-defined attribute is constant and "
     "kills a branch; (R5) tree crossover (mutate with donor material, interpreted through sa/treemodel.py) "
-    "returns one of the donor's same-typed subtrees and never synthesises new material. Decides these shapes for "
-    "all parents and seeds within the model sizes."
+    "returns one of the donor's same-typed subtrees and never synthesises new material - also when the donor's "
+    "root is its only same-typed subtree. Decides these shapes for all parents and seeds within the model sizes."
 )
 
 MUTATE = "geneticengine.representations.tree.treebased:mutate"
